@@ -115,6 +115,55 @@ struct ModVisitorVoid {
     void operator()(const P& p) const { (void)Pay<P>::rd(p); }
 };
 
+// final() reads the payload and the mutex of the wrapper without events.  The members are looked up by name
+// through SFINAE so that the driver keeps compiling when a change renames or removes them (the value is then
+// -2); with -DVS_NO_PEEK no private member is mentioned at all and final() prints nothing.
+#ifndef VS_NO_PEEK
+template<class M>
+long sharers_of_any(const M&)
+{
+    return 0;
+}
+inline long sharers_of_any(const vstd::shared_mutex& m) { return (long)m.sharers.size(); }
+inline long sharers_of_any(const vstd::shared_timed_mutex& m) { return (long)m.sharers.size(); }
+template<class W>
+auto peek_owner(W& w, int) -> decltype((long)w.m_mutex.owner)
+{
+    return (long)w.m_mutex.owner;
+}
+template<class W>
+long peek_owner(W&, long)
+{
+    return -2;
+}
+template<class W>
+auto peek_sharers(W& w, int) -> decltype(sharers_of_any(w.m_mutex))
+{
+    return sharers_of_any(w.m_mutex);
+}
+template<class W>
+long peek_sharers(W&, long)
+{
+    return -2;
+}
+template<class PA, class W>
+auto peek_value(W& w, int) -> decltype(PA::peek(w.m_obj))
+{
+    return PA::peek(w.m_obj);
+}
+template<class PA, class W>
+long peek_value(W&, long)
+{
+    return -2;
+}
+#endif
+// tags of the TPay objects already returned by an exchange (each written object is replaced exactly once)
+inline std::set<long>& consumed_tags()
+{
+    static std::set<long> s;
+    return s;
+}
+
 struct IWrap {
     virtual ~IWrap() = default;
     virtual long op(int tid, const std::vector<long>& o) = 0;
@@ -183,15 +232,25 @@ struct Wrap: IWrap {
     std::vector<P> expected;  // compare_exchange's in/out argument: one per thread, stable address
     std::vector<vs::WSrc> sources;  // the caller's lvalue of `wrapper = lvalue;`, one per thread
 
-    static W* build(bool en, long init)
+    // intflag: the enableLocking argument is passed as an int 0 / 1 (a C-style flag) instead of a bool: the same
+    // object on the unmodified library, where the only constructors take `bool enableLocking` first
+    static W* build(bool en, long init, bool intflag)
     {
         if constexpr (isOpt) {
+            if (intflag) {
+                const int flag = en ? 1 : 0;
+                if constexpr (std::is_same_v<P, vs::TPay>) {
+                    return new W(flag, PA::mk(init));
+                } else {
+                    return new W(flag, init);
+                }
+            }
             return new W(en, PA::mk(init));
         } else {
             return new W(PA::mk(init));
         }
     }
-    Wrap(const vs::Case& c, bool en, long init): w(build(en, init)), slots(c.progs.size()), expected(c.progs.size()), sources(c.progs.size()) {}
+    Wrap(const vs::Case& c, bool en, long init): w(build(en, init, ((c.cfg.size() > 3 ? c.cfg[3] : 0) + (c.cfg.size() > 1 ? c.cfg[1] : 0)) % 2 != 0)), slots(c.progs.size()), expected(c.progs.size()), sources(c.progs.size()) {}
 
     static long installX(Slot& sl, XH&& tmp)
     {
@@ -233,7 +292,11 @@ struct Wrap: IWrap {
                 if constexpr (hasX && timed) return installX(my[h], w->try_lock_for(ms));
                 return -1;
             case 3:
-                if constexpr (hasX && timed) return installX(my[h], w->try_lock_until(std::chrono::steady_clock::now() + ms));
+                if constexpr (hasX && timed) {
+                    // second argument 1: "no deadline" = time_point::max() (identical on the shim: a timed attempt)
+                    if (arg(2) == 1) return installX(my[h], w->try_lock_until(std::chrono::steady_clock::time_point::max()));
+                    return installX(my[h], w->try_lock_until(std::chrono::steady_clock::now() + ms));
+                }
                 return -1;
             case 4:
                 if constexpr (hasS) return installS(my[h], w->lock_shared());
@@ -245,8 +308,11 @@ struct Wrap: IWrap {
                 if constexpr (hasS && timed) return installS(my[h], w->try_lock_shared_for(ms));
                 return -1;
             case 7:
-                if constexpr (hasS && timed)
+                if constexpr (hasS && timed) {
+                    if (arg(2) == 1)
+                        return installS(my[h], w->try_lock_shared_until(std::chrono::steady_clock::time_point::max()));
                     return installS(my[h], w->try_lock_shared_until(std::chrono::steady_clock::now() + ms));
+                }
                 return -1;
             case 8:
                 if constexpr (hasConst) return installS(my[h], static_cast<const W&>(*w).lock());
@@ -325,6 +391,21 @@ struct Wrap: IWrap {
                 return -1;
             case 16:
                 if constexpr (hasLS) {
+                    if (arg(2) != 0) {
+                        // store(lvalue): the caller's object must be intact afterwards
+                        if constexpr (std::is_same_v<P, WPay>) {
+                            vs::WSrc& src = sources[tid];
+                            src.v = arg(1);
+                            src.moved = false;
+                            w->store(src);
+                            if (src.moved || src.v != arg(1)) vs::fault(nullptr, 8);
+                        } else {
+                            P src = PA::mk(arg(1));
+                            w->store(src);
+                            if (PA::peek(src) != arg(1)) vs::fault(nullptr, 8);
+                        }
+                        return 0;
+                    }
                     w->store(PA::mk(arg(1)));
                     return 0;
                 }
@@ -410,6 +491,10 @@ struct Wrap: IWrap {
             case 20:
                 if constexpr (hasXc) {
                     P old = w->exchange(PA::mk(arg(1)));
+                    if constexpr (std::is_same_v<P, vs::TPay>) {
+                        // exchange returns THE object it replaced: no object is handed out twice
+                        if (!consumed_tags().insert(old.tag).second) vs::fault(nullptr, 11);
+                    }
                     return PA::peek(old);
                 }
                 return -1;
@@ -432,7 +517,11 @@ struct Wrap: IWrap {
     }
     void final(std::vector<std::vector<long>>& out) override
     {
-        out.push_back({PA::peek(w->m_obj), (long)w->m_mutex.owner, sharers_of(w->m_mutex), vs::plan().faults, vs::plan().calls});
+#ifndef VS_NO_PEEK
+        out.push_back({peek_value<PA>(*w, 0), peek_owner(*w, 0), peek_sharers(*w, 0), vs::plan().faults, vs::plan().calls});
+#else
+        (void)out;
+#endif
     }
 };
 
@@ -461,6 +550,7 @@ struct WrapperComp {
         std::vector<long> throws;
         for (size_t i = 5; i < c.cfg.size(); ++i) throws.push_back(c.cfg[i]);
         vs::plan().reset(throws);
+        consumed_tags().clear();
         const bool en = cf(2) != 0;
         const long plain = cf(4);
         switch (cf(0)) {
@@ -475,4 +565,6 @@ struct WrapperComp {
     long op(int tid, const std::vector<long>& o) { return w->op(tid, o); }
     void final(std::vector<std::vector<long>>& out) { w->final(out); }
 };
+#ifndef WRAPPER_NO_MAIN  // wrapper2_drv.cpp reuses Wrap<FL, M, P>
 int main(int argc, char** argv) { return vs::drive<WrapperComp>(argc, argv); }
+#endif
